@@ -31,7 +31,7 @@ func TestVerif(t *testing.T) {
 		},
 		Jobs:           jobs,
 		BudgetQuick:    300,
-		BudgetThorough: 1500,
+		BudgetThorough: 2400,
 	})
 }
 
